@@ -250,6 +250,31 @@ func genCases(args []string) {
 			emit(d, "json", "lit", 0, chunksFor(d))
 		})
 	}
+	// (2a) decimals with 15-19 significant digits and no exponent, up to 9-10 digits on each side of the point: the band in which an
+	// integer-accumulating fast path (float64(I*Div+Frac)/float64(Div)) rounds twice and lands one ulp beside the correctly rounded
+	// value in about one literal of a hundred - every front-end has its own accumulator
+	nlit := 600
+	if *thorough {
+		nlit = 12000
+	}
+	for k := 0; k < nlit; k++ {
+		ni, nf := 6+r.Intn(5), 7+r.Intn(4)
+		ds := make([]byte, 0, 24)
+		if r.Intn(4) == 0 {
+			ds = append(ds, '-')
+		}
+		ds = append(ds, byte('1'+r.Intn(9)))
+		for i := 1; i < ni; i++ {
+			ds = append(ds, byte('0'+r.Intn(10)))
+		}
+		ds = append(ds, '.')
+		for i := 0; i < nf; i++ {
+			ds = append(ds, byte('0'+r.Intn(10)))
+		}
+		docs := [][]byte{ds, []byte("[" + string(ds) + "]"), []byte("{\"a\":" + string(ds) + ",\"b\":1}")}
+		d := docs[k%len(docs)]
+		emit(d, "json", "lit-dec", 0, chunksFor(d))
+	}
 	// (2b) deep nesting: container stacks kept as bit masks or fixed tables show beyond 64 / 128 / 256 open containers
 	for _, depth := range []int{40, 63, 64, 65, 66, 100, 129, 257, 300} {
 		if !*thorough && (depth == 40 || depth == 100 || depth == 257) {
